@@ -85,7 +85,9 @@ CLAIMS = {
              "preserves it from every case, nested step by assume-guarantee), with a bounds obligation on every "
              "argv[ i] and word[ j] for all argument vectors. Termination is decided for the one kind of loop whose bound is "
              "outside the program: a loop driven by a stream read must end at the first failed read (end of file or "
-             "error). Termination of the other loops is NOT decided.",
+             "error), and for the element loop over an argument vector: every step of the argument iterator is proved to move "
+             "the cursor forward (word index, then character position; the nested step on a lone '--' by induction). "
+             "Termination of the remaining loops is NOT decided.",
         note="trusted base: clang front end, extractor, cv/lin.py + cv/bounds.py and its models of "
              "strlen/strcpy/new[]/std::vector/std::string; argc >= 1, argv words are C strings shorter than 2 GiB, "
              "argv[argc] is null",
